@@ -260,7 +260,7 @@ impl World {
             Op::Tick => {
                 key = "Tick";
                 let snap = self.cfg.snapshot();
-                if self.refresh { tick_refresh(&mut self.conns, snap.conn_timeout_ms); }
+                if self.refresh { tick_refresh(&mut self.conns, &snap); }
                 let r = vh::handle_housekeeping(&mut self.conns, &mut self.conn_io, &mut self.reg, snap.mode.is_classic(),
                                                 now, &mut self.all_failed_at, &mut self.readers, &self.packet_tx).await;
                 self.last_err = r.is_err();
@@ -336,9 +336,34 @@ impl World {
     }
 }
 
-/// The housekeeping arm's timeout refresh (see `tick_refresh` call site): until the
-/// `fix:` commit exists this is a no-op placeholder and cases are generated with refresh=false.
-fn tick_refresh(_conns: &mut [SrtlaConnection], _ms: u64) {}
+/// The housekeeping arm of `run_sender_with_config` = timeout refresh + `handle_housekeeping`
+/// (the arm itself is a `select!` branch and cannot be called); this is its first statement.
+fn tick_refresh(conns: &mut [SrtlaConnection], snap: &srtla_core::ConfigSnapshot) {
+    srtla_core::selection::refresh_conn_timeouts(conns, snap);
+}
+
+/// Lexical shape fact: does every `handle_housekeeping(` call site in src/sender/mod.rs have
+/// `refresh_conn_timeouts(&mut connections` right before it?  If not, the arm no longer
+/// refreshes and the cases are generated (and the model run) without the refresh.
+fn arm_refreshes() -> bool {
+    let repo = std::env::var("VERIF_REPO").unwrap_or_else(|_| "/repo".into());
+    let Ok(src) = std::fs::read_to_string(format!("{repo}/src/sender/mod.rs")) else { return false };
+    let mut sites = 0;
+    let mut ok = 0;
+    let mut from = 0;
+    while let Some(p) = src[from..].find("handle_housekeeping(") {
+        let at = from + p;
+        from = at + 1;
+        let line_start = src[..at].rfind('\n').map(|x| x + 1).unwrap_or(0);
+        if src[line_start..at].contains("use ") || src[line_start..at].trim_start().starts_with("//") { continue; }
+        sites += 1;
+        let mut lo = at.saturating_sub(260);
+        while !src.is_char_boundary(lo) { lo -= 1; }
+        let code: String = src[lo..at].lines().filter(|l| !l.trim_start().starts_with("//")).collect::<Vec<_>>().join("\n");
+        if code.contains("refresh_conn_timeouts(&mut connections") { ok += 1; }
+    }
+    sites >= 2 && ok == sites
+}
 
 impl World {
     async fn data(&mut self, seq: u32) -> String {
@@ -573,7 +598,8 @@ async fn sc_random(rng: &mut Rng, len: usize) -> World {
 pub fn run(seed: u64, tier: &str, out: &Path, extra: &[(String, String)]) -> std::io::Result<()> {
     let mut run = Run::new("C08", "Run_C08", seed, tier, out);
     let thorough = run.thorough();
-    let refresh = !extra.iter().any(|(k, v)| k == "refresh" && v == "0");
+    let shape = arm_refreshes();
+    let refresh = shape && !extra.iter().any(|(k, v)| k == "refresh" && v == "0");
     REFRESH.store(refresh, Ordering::Relaxed);
     let with_f8 = extra.iter().any(|(k, v)| k == "f8" && v == "1");
     let rt = tokio::runtime::Builder::new_current_thread().enable_all().build()?;
@@ -613,6 +639,7 @@ pub fn run(seed: u64, tier: &str, out: &Path, extra: &[(String, String)]) -> std
         push(&mut run, "random", w);
     }
     for (k, v) in &hist { run.count_n(&format!("op:{k}"), *v); }
+    run.note(format!("shape: every handle_housekeeping call site in src/sender/mod.rs is preceded by refresh_conn_timeouts = {shape}; ticks generated with refresh = {refresh}"));
     run.note("ops per case 30-140; ticks drawn from boundary pools (1000/4000/5000/10000/60000/120000 +-1); receivers scripted per link (good / black-hole / lossy / forgot group / refuse); faults: bind failure, send failure (socket shut down), I/O entry dropped, REG_ERR/REG_NGP injections".into());
     run.finish(16, 1_000_000)
 }
